@@ -156,7 +156,7 @@ def run_tf(beh, var, rs, tol):
     eps = eps_opt * e.maxarg if (rel and eps_opt > 0) else eps_opt
     if (pr["ev"] < 0).any():
       bad.append([si, "negative_root_eigenvalue", float(pr["ev"].min())])
-    for cl, det in fc.compare(pr, e, Q, tol, worst, eps=eps):
+    for cl, det in fc.compare(pr, e, Q, tol, worst, eps=eps, tol_inv=var.get("tol_inv")):
       bad.append([si, cl, det])
   return bad, worst
 
